@@ -11,42 +11,7 @@ YUV = 'h263_rs_yuv::bt601::yuv420_to_rgba'
 MAXDIM = 65535          # u16 indications
 
 
-class NotExact(Exception):
-    pass
-
-
-def ev(t, env):
-    """value of a normalised term on concrete numbers (a finite table of a closed form; nothing of /repo is executed).
-    Floats model f32: every intermediate must be exactly representable (integers or halves below 2^24), else NotExact."""
-    k = t[0]
-    if k == 'c': return t[1]
-    if t in env: return env[t]
-    if k == '+': return sum(ev(x, env) for x in t[1:])
-    if k == '*':
-        r = 1
-        for x in t[1:]: r = r * ev(x, env)
-        if isinstance(r, float) and (abs(r) >= 2 ** 24 or r * 2 != int(r * 2)): raise NotExact(show(t))
-        return r
-    if k == 'f':
-        a = [ev(x, env) for x in t[2:]]
-        n = t[1]
-        if n == 'ceil': return float(math.ceil(a[0]))
-        if n == 'floor': return float(math.floor(a[0]))
-        if n == 'trunc': return int(a[0])
-        if n == 'divceil': return -((-a[0]) // a[1])
-        if n == 'Div':
-            if isinstance(a[0], float) or isinstance(a[1], float):
-                r = a[0] / a[1]
-                if abs(r) >= 2 ** 24 or r * 2 != int(r * 2): raise NotExact(show(t))
-                return r
-            return a[0] // a[1]
-        if n == 'Rem': return a[0] % a[1]
-        if n == 'Shr': return a[0] >> a[1]
-        if n == 'BitAnd': return a[0] & a[1]
-        if n == 'Sub': return a[0] - a[1]
-        if n == 'min': return min(a)
-        if n == 'max': return max(a)
-    raise Unanalysable('cannot tabulate %s' % show(t))
+from ..loopexpr import ev, NotExact
 
 
 def is_half_up(term, var):
